@@ -134,6 +134,9 @@ pub fn decode_strings(ctx: &Ctx, rng: &mut impl RngCore, nvalid: usize, nrand: u
     for s in crate::eng::decode_s_for_intermediates(ctx, rng) {
         out.push((to_le(&s, 32), "engineered-intermediate"));
     }
+    for s in crate::eng::decode_s_coinciding_intermediates(ctx) {
+        out.push((to_le(&s, 32), "engineered-intermediate"));
+    }
     // aliases s + q of *valid* encodings s that a folded word comparison confuses with s (the construction
     // yields many aliases; those whose s is a valid encoding and that keep the top three bits clear are kept)
     for w in [64usize, 32] {
